@@ -114,6 +114,9 @@ class Symbol(Node):  # pylint: disable=too-few-public-methods
     """
 
     def get_str_repr(self, sons_repr):
+        if self.value in SPECIAL_SYMBOLS:
+            # The symbol was escaped in the original regex
+            return "\\" + str(self.value)
         return str(self.value)
 
     def get_cfg_rules(self, current_symbol, sons):
